@@ -1,4 +1,5 @@
 SPECIFICATION Spec
-CONSTANT ValidateTTL = FALSE
+CONSTANTS ValidateTTL = FALSE
+  FamilyCheck = TRUE
 INVARIANT C19_Design
 CHECK_DEADLOCK FALSE
